@@ -5,7 +5,7 @@ from __future__ import annotations
 import itertools
 
 from .. import automata as A
-from .. import e1, impl, linelang, refmodel
+from .. import blocks, e1, impl, linelang, refmodel
 from ..chartgen import UNICODE_TRAPS, mk
 from ..linelang import BL
 
@@ -64,6 +64,7 @@ def setup():
 def plan(tier, seed):
     L = 4 if tier == "quick" else 5
     shards = [("automata", L)] + [("values", i, 4 if tier == "quick" else 5) for i in range(6)] + [("orders",), ("ticks",)]
+    shards += [("blocks", B, part) for B in blocks.BLOCKS for part in range(4)]
     return dict(shards=shards, bounds=dict(alphabet_size=len(A.SIGMA), conformance_string_length=L, value_length=4 if tier == "quick" else 5), budget_s=900)
 
 
@@ -116,6 +117,9 @@ def check_e2e(ctx, lines, why, sync=("0 = TS 4", "0 = B 1000000000")):
 
 
 def run_shard(shard, ctx):
+    if shard[0] == "blocks":
+        blocks.sweep(ctx, "event-line-at-block-boundary", _block_text, "Events", blocks=(shard[1],), part=shard[2], parts=4, vias=("file",) if shard[1] > 8192 else ("file", "path"))
+        return
     if shard[0] == "automata":
         _automata(ctx, shard[1])
     elif shard[0] == "values":
@@ -239,7 +243,16 @@ def _orders(ctx):
             check_e2e(ctx, [pool[i] for i in idx], "lines across tempo segments", sync=sync)
 
 
+BLOCK_EVENTS = [('%d = E "section s%d"', '%d = E "lyric ly-%d"', '%d = E "free text %d"', '%d = E "lyric \"q%d\""', '%d = E "sectionx %d"')[i % 5] % (48 * i, i) for i in range(30)]
+
+
+def _block_text(pad):
+    return mk(res=192, song_extra=['Name = "%s"' % ("x" * pad)], sync=["0 = TS 4", "0 = B 120000", "700 = B 90000"], events=BLOCK_EVENTS, tracks={"ExpertSingle": ["0 = N 0 0", "3000 = N 1 5"]})
+
+
 def replay(case):
+    if "shape" in case:
+        return e1.replay_model_case(case, "event-line-at-block-boundary")
     order = _order()
     if case.get("kind") == "line":
         gk, gd = linelang.claimant("events", case["line"], order)
